@@ -104,6 +104,23 @@ def strong_cases(draw):
         spec = dict(spec, classes=spec['classes'] + [wide], order=list(spec['order']) + ['Wide'],
                     doc_type=draw(st.sampled_from([['ref', 'Wide'], ['list', ['ref', 'Wide']],
                                                    ['dict', 'str', ['ref', 'Wide']]])))
+    elif draw(st.integers(0, 5)) == 0:
+        # a Union of unrelated classes that share attribute names, one of them
+        # typed as different nested classes: every alternative complains, at
+        # different depths
+        i1 = {'name': 'In1', 'kind': 'obj', 'bases': [], 'params': [
+            {'name': 'p', 'type': 'int'}, {'name': 'r', 'type': 'str', 'default': ['str', 'x']}]}
+        i2 = {'name': 'In2', 'kind': 'obj', 'bases': [], 'params': [
+            {'name': 'q', 'type': 'str'}, {'name': 'gid', 'type': 'int'}]}
+        x = {'name': 'UX', 'kind': 'obj', 'bases': [], 'params': [
+            {'name': 'name', 'type': 'str'}, {'name': 'meta', 'type': ['ref', 'In1']},
+            {'name': 'mode', 'type': 'int'}]}
+        y = {'name': 'UY', 'kind': 'obj', 'bases': [], 'params': [
+            {'name': 'name', 'type': 'str'}, {'name': 'meta', 'type': ['ref', 'In2']},
+            {'name': 'size', 'type': 'int'}]}
+        u = ['union', ['ref', 'UX'], ['ref', 'UY']]
+        spec = {'classes': [i1, i2, x, y], 'order': ['In1', 'In2', 'UX', 'UY'],
+                'doc_type': draw(st.sampled_from([u, ['list', u], ['dict', 'str', u]]))}
     v = draw(gen.vspec_for(spec, spec['doc_type'], hard=False, omit_defaults=False))
     if v is None:
         return {'kind': 'strong', 'model': spec, 'tree': None}
